@@ -77,8 +77,10 @@ func extractFirstBytesRecursive(re *syntax.Regexp, result *FirstByteSet, depth i
 			return false // Empty literal matches empty string
 		}
 		r := re.Rune[0]
-		if r > 255 {
-			return false // Non-ASCII, too complex
+		if r > 127 {
+			// Non-ASCII: the first byte of the UTF-8 encoding is not the rune value
+			// (é is 0xC3 0xA9, not 0xE9), too complex
+			return false
 		}
 		result.bytes[byte(r)] = true
 		result.count++
@@ -88,11 +90,19 @@ func extractFirstBytesRecursive(re *syntax.Regexp, result *FirstByteSet, depth i
 		// Character class: add all bytes in the class
 		for i := 0; i < len(re.Rune); i += 2 {
 			lo, hi := re.Rune[i], re.Rune[i+1]
-			if hi > 255 {
-				hi = 255 // Truncate to ASCII
+			if hi > 127 {
+				// A non-ASCII member starts with some byte >= 0x80 (not with the
+				// rune value): admit every such byte.
+				for r := rune(128); r <= 255; r++ {
+					if !result.bytes[byte(r)] {
+						result.bytes[byte(r)] = true
+						result.count++
+					}
+				}
+				hi = 127
 			}
-			if lo > 255 {
-				continue // Skip non-ASCII ranges
+			if lo > 127 {
+				continue // fully non-ASCII range, covered above
 			}
 			for r := lo; r <= hi; r++ {
 				if !result.bytes[byte(r)] {
